@@ -2,7 +2,25 @@
  * Built with ASan so that a read outside the name table aborts. Output: "<fn> <v> <name|NULL>". */
 #include "rtrlib/rtr/rtr.h"
 #include "rtrlib/rtr_mgr.h"
+#include <signal.h>
 #include <stdio.h>
+#include <string.h>
+#include <unistd.h>
+
+/* sweep mode: the value being looked at, for the crash handler */
+static volatile unsigned long long cur_x;
+static volatile char cur_fn;
+
+static void on_crash(int sig)
+{
+	char b[64];
+	int n = snprintf(b, sizeof(b), "%c %lld crash\n", cur_fn, (long long)(int)(unsigned int)cur_x);
+
+	(void)sig;
+	if (n > 0 && write(1, b, (size_t)n) < 0)
+		_exit(3);
+	_exit(3);
+}
 
 int main(void)
 {
@@ -17,7 +35,12 @@ int main(void)
 			 * (built without sanitizers for this use: an out-of-table read shows as a non-NULL answer or a crash) */
 			unsigned long long bad = 0;
 
+			signal(SIGSEGV, on_crash);
+			signal(SIGBUS, on_crash);
+			cur_fn = which == 'S' ? 's' : 'm';
+			fflush(stdout);
 			for (unsigned long long x = (unsigned long long)v; x <= 0xffffffffULL; x++) {
+				cur_x = x;
 				s = which == 'S' ? rtr_state_to_str((enum rtr_socket_state)(unsigned int)x) :
 						   rtr_mgr_status_to_str((enum rtr_mgr_status)(unsigned int)x);
 				if (s && bad++ < 5)
